@@ -80,6 +80,15 @@ fn non_sgr() -> Tok {
 fn alphabet(multi_any: bool, rich: bool) -> Vec<Tok> {
     let mut v = text_tokens();
     v.extend(SGR_BASE.iter().map(|p| sgr(p)));
+    // a colour change immediately followed by a character, as one token: two differently coloured
+    // pieces of text fit in two tokens (colours that differ in one component share nothing in the sheet)
+    for (params, ch) in [("38;2;1;2;3", "p"), ("38;2;1;2;200", "q"), ("48;2;255;0;10", "r"), ("48;2;255;0;99", "s"), ("58;2;1;2;3;4", "t"), ("58;2;1;2;77;4", "u")] {
+        let mut t = sgr(params);
+        t.bytes.extend(ch.as_bytes());
+        t.label = format!("CSI{params}m{ch}");
+        t.text = true;
+        v.push(t);
+    }
     v.extend(SGR_MULTI_TAIL.iter().map(|p| sgr(p)));
     if multi_any {
         v.extend(SGR_MULTI_ANY.iter().map(|p| sgr(p)));
